@@ -96,6 +96,12 @@ def perturb(rng, cw, sb):
             tags.append('man:stale+hostile')
     if rng.random() < 0.4:
         tags.append('cfg:' + cw.edit_config()); cw.write()
+    if rng.random() < 0.3:
+        # a file the configuration now asks for is already there, put there by the user, recorded nowhere
+        cw.add_prompt(); cw.write(); tags.append('cfg:add_prompt')
+        d = [d for d in cw.desired(None) if d['path'].endswith('/' + sorted(cw.modules[-1]['files'])[0])]
+        if d and rng.random() < 0.8:
+            world.write(d[0]['path'], rng.choice([d[0]['bytes'], b'user wrote this first\n'])); tags.append('add:desired_unmanaged')
     return tags
 
 def run_status_stream(ctx, n):
